@@ -76,6 +76,21 @@ def correspondence(ctx):
         else:
             d = rng.choice(MAGICS[-1:] + [b""]) + datagen.randbytes(rng, rng.choice([0, 4, 8, 40, 300])) + (f[:rng.randint(0, 200)])
             ops.append("ddict " + frames.hx(d)); info.append(("ddict", d, 0))
+    # directed VALID inputs (untrusted input includes perfectly valid frames): raw literals referenced in place inside the last block of an
+    # exact-size input, short sequences section behind them, long literal runs ending at the end of the literals (over-reading copies)
+    nvalid = 0
+    for i in range(400 if ctx.quick() else 6000):
+        f, x = synth.rawlit_tail(rng)
+        hx = frames.hx(f)
+        cap = rng.choice([len(x) + 32, len(x) + 64, len(x) + 1000, len(x), 1 << 20])
+        r = i % 4
+        if r < 2:
+            ops.append("dec %d %s" % (cap, hx)); info.append(("dec", f, cap))
+        elif r == 2:
+            ops.append("decs %d %s %s %s" % (cap, hx, rng.choice(["100000", "100000", "7,100000"]), "100000")); info.append(("decs", f, cap))
+        else:
+            ops.append("bufless %d %s" % (cap, hx)); info.append(("bufless", f, cap))
+        nvalid += 1
     for n, fid in ((1, 1000), (1, 7), (16, 1003), (17, 5), (48, 1), (63, 99), (64, 200), (65, 1064), (130, 77)):
         ops.append("multidd %d %d" % (n, fid)); info.append(("multidd", b"", 0))
     chunks = frames.split_chunks(list(range(len(ops))), 16)
